@@ -44,22 +44,42 @@ def gen_overlay():
     return os.path.join(BUILD, "overlay.json")
 
 
-def go_test(pkg, run, env=None, timeout=1800, race=False, extra_args=None, tags="verif"):
-    """Run an in-package harness test of the CURRENT /repo tree through the overlay.
-    Returns (returncode, combined output)."""
+def go_test(pkg, run, env=None, timeout=1800, race=False, extra_args=None, tags="verif", cwd=None):
+    """Build the in-package harness test binary of the CURRENT /repo tree through the overlay
+    (go test -c) and run it.  Returns (returncode, combined output).  The binary runs in `cwd`
+    (default: a scratch dir), so overlay-only package directories work too."""
     ov = gen_overlay()
-    cmd = ["go", "test", "-tags", tags, "-overlay", ov, "-vet=off", "-count=1",
-           "-timeout", "%ds" % timeout, "-run", run]
+    bindir = os.path.join(WORK, "gobin")
+    os.makedirs(bindir, exist_ok=True)
+    exe = os.path.join(bindir, "t-%s-%d.test" % (hashlib.sha1((pkg + run + REPO).encode()).hexdigest()[:10], os.getpid()))
+    cmd = ["go", "test", "-c", "-tags", tags, "-overlay", ov, "-vet=off", "-o", exe]
     if race:
         cmd.append("-race")
-    if extra_args:
-        cmd += extra_args
     cmd.append(pkg)
     try:
-        r = subprocess.run(cmd, cwd=REPO, env=goenv(env), capture_output=True, text=True, timeout=timeout + 60)
+        r = subprocess.run(cmd, cwd=REPO, env=goenv(env), capture_output=True, text=True, timeout=1800)
     except subprocess.TimeoutExpired:
-        raise Infra("go test timed out: " + " ".join(cmd))
-    return r.returncode, r.stdout + r.stderr
+        raise Infra("go test -c timed out: " + " ".join(cmd))
+    if r.returncode != 0 or not os.path.exists(exe):
+        raise Infra("harness does not build (%s):\n%s" % (pkg, (r.stdout + r.stderr)[-4000:]))
+    run_cwd = cwd or os.path.join(bindir, "cwd-%d" % os.getpid())
+    os.makedirs(run_cwd, exist_ok=True)
+    cmd = [exe, "-test.run", run, "-test.timeout", "%ds" % timeout, "-test.count", "1"]
+    if extra_args:
+        cmd += extra_args
+    try:
+        r = subprocess.run(cmd, cwd=run_cwd, env=goenv(env), capture_output=True, text=True, timeout=timeout + 60)
+        rc, out = r.returncode, r.stdout + r.stderr
+    except subprocess.TimeoutExpired as e:
+        raise Infra("harness timed out: %s %s" % (pkg, run))
+    finally:
+        try:
+            os.remove(exe)
+        except OSError:
+            pass
+        if not cwd:
+            shutil.rmtree(run_cwd, ignore_errors=True)
+    return rc, out
 
 
 def go_build(pkg, out, race=False, tags="verif"):
